@@ -364,6 +364,11 @@ fn bytes_to_uint8array(bytes: &[u8]) -> Uint8Array {
 #[cfg(feature = "engine")]
 mod warp_kernel;
 
+/// Verification hook (feature `echo_verif`, off by default): the engine-backed kernel type, so a
+/// native harness can drive the `KernelPort` methods that sit behind the WASM-only exports.
+#[cfg(feature = "echo_verif")]
+pub use warp_kernel::WarpKernel as EchoVerifWarpKernel;
+
 #[cfg(feature = "engine")]
 fn build_kernel_head<F>(make_kernel: F) -> Result<(warp_kernel::WarpKernel, HeadInfo), AbiError>
 where
